@@ -20,8 +20,10 @@ package redis
 //   * otherwise                                         -> -MOVED slot owner
 //   * ASKING flag is cleared after the next command unless the connection is
 //     inside MULTI (so ASKING MULTI … EXEC covers the whole transaction)
-//   * a redirect/error while queueing marks the transaction dirty (EXECABORT);
-//     EXEC re-checks every queued command against the slot table.
+//   * a redirect/error while queueing (single-command check) marks the
+//     transaction dirty (EXECABORT); EXEC re-checks the transaction as ONE
+//     multi-key request over all queued keys (same slot; on a migrating or
+//     importing slot: all keys present or all missing, else -TRYAGAIN).
 // Every request is processed atomically under one mutex; the order in which the
 // mutex is taken is the global order of the trace.
 
